@@ -272,6 +272,47 @@ def _no_short_write(prog, r, anchor, bodies):
     r.check(not short, anchor, "short-write", "no bare Write::write (which may accept only part of the buffer)", "the text is handed to Write::write, which may write only a prefix of it (pipes, slow sinks): the rest of the line is lost while the method returns Ok", short[0].loc() if short else None)
 
 
+def _staged_text_kept(prog, r, anchor, bodies):
+    """A writer may gather its text in a local byte buffer; what it then does to that buffer decides whether every line
+    reaches the sink.  Decided form: `buffer.clear()` dominated by `write_all` calls fed from the same buffer - at least one of
+    them must hand over the whole buffer (no index / range / split between the buffer and the call).  Other forms (drain,
+    truncate, a copy of the tail taken before the clear) are reported as not decided."""
+    part = r"(^core::ops::index::Index(Mut)?::index(_mut)?$|::get(_mut)?$|::split_at(_mut)?$|::split_first$|::split_last$|::first$|::last$)"
+    n = 0
+    for x in bodies:
+        for s in x.calls():
+            c = callee_of(s)
+            if not callee_matches(c, r"^alloc::(vec::Vec|string::String)::clear$"):
+                continue
+            p0 = op_place(s.node["args"][0]) if s.node["args"] else None
+            if p0 is None:
+                continue
+            roots, _, _ = data_deps(x, s.node["args"][0], through_calls=False)
+            roots = {l for l in roots if re.search(r"alloc::(vec::Vec<u8|string::String)", x.local_ty(l))}
+            if not roots:
+                continue
+            feeds = []
+            for w in x.calls():
+                if not callee_matches(callee_of(w), r"^std::io::Write::write_all$") or len(w.node["args"]) < 2:
+                    continue
+                locs, calls, _ = data_deps(x, w.node["args"][1])
+                if not (set(locs) & roots) or not x.dominates(w, s):
+                    continue
+                partial = [k for k in calls if callee_matches(callee_of(k), part) and "RangeFull" not in (callee_of(k)["decl"] + (callee_of(k).get("resolved") or ""))]
+                feeds.append((w, partial))
+            if not feeds:
+                continue
+            n += 1
+            fed = {(k.bb, k.si) for _, pl in feeds for k in pl}
+            other = [k for k in x.calls() if callee_matches(callee_of(k), part + r"|::(to_vec|to_owned|clone|split_off|drain|extend_from_within)$") and (k.bb, k.si) not in fed and x.dominates(k, s) and k.node["args"] and (set(data_deps(x, k.node["args"][0], through_calls=False)[0]) & roots)]
+            whole = [w for w, pl in feeds if not pl]
+            if whole or other:
+                r.ok(anchor + "|staged-text", "the staging buffer is cleared after %s" % ("the whole of it was handed to the sink" if whole else "part of it was written and the rest read elsewhere: NOT decided"), s.loc())
+            else:
+                r.violation(anchor, "staged-text-dropped", "the staging buffer is cleared although only a slice of it (%s) was handed to the sink before: the text after that slice is lost, the re-read framework lacks those declarations" % ", ".join(sorted({callee_decl(callee_of(k)).rsplit("::", 2)[-2] + "::" + callee_decl(callee_of(k)).rsplit("::", 1)[-1] for _, pl in feeds for k in pl})), s.loc())
+    return n
+
+
 def rule_framework_writer(ctx):
     from .. import outlang
 
@@ -328,6 +369,7 @@ def rule_framework_writer(ctx):
                 reorder.append((s, d))
     r.check(not reorder, b.id, "reordered:%s" % sorted({d.rsplit("::", 1)[-1] for _, d in reorder}), "declarations are written in the iterators' order, none skipped (no sort / rev / filter / set collection in the writer)", "the framework writer reorders or filters the declarations (%s): reading the text back gives other ids / another framework" % sorted({d for _, d in reorder}), reorder[0][0].loc() if reorder else b.loc())
     _no_short_write(prog, r, b.id, bodies)
+    _staged_text_kept(prog, r, b.id, bodies)
     r.check("iter" in used and "iter_attacks" in used, b.id, "arg-source" if "iter" not in used else "att-source", "both ArgumentSet::iter and AAFramework::iter_attacks are iterated", "the writer does not iterate %s" % ("ArgumentSet::iter" if "iter" not in used else "AAFramework::iter_attacks"), b.loc())
     # attacker first, attacked second
     atts = [fs for fs in fss if fs.template.startswith("att(")]
